@@ -115,6 +115,18 @@ def load_registry():
             if name in reg:
                 raise Undecided("registry: duplicate harness " + name)
             reg[name] = h
+            # `nodebug=quick|thorough`: the same harness again with debug assertions compiled out
+            # (C20: same behaviour in both profiles; unreachable_unchecked arms really unreachable)
+            if kv.get("nodebug"):
+                v = dict(h)
+                v["name"] = name + "@nodebug"
+                v["props"] = ["C20"]
+                v["tier"] = kv["nodebug"]
+                v["cfg"] = "nodebug"
+                v["covers"] = []
+                v["hist"] = False
+                v["big"] = False
+                reg[v["name"]] = v
     return reg
 
 
@@ -255,6 +267,8 @@ def kani_cmd(h, extra=()):
     cmd = ["cargo", "kani", "-Z", "stubbing", "-Z", "function-contracts", "-Z", "unstable-options",
            "--harness", h["full"], "--exact", "--output-format", "regular", "--no-assertion-reach-checks"]
     cmd += ["--solver", h.get("solver") or "minisat"]
+    if h.get("cfg"):
+        cmd += ["--target-dir", "target-" + re.sub(r"\W", "_", h["cfg"])]
     if h.get("features"):
         cmd += ["--features", h["features"]]
     if h.get("unwind"):
